@@ -71,6 +71,45 @@ def _one(sc):
                 isn={d: (sc["conns"][0].get("isn", (1000, 5000))["cs".index(d)] + 1) % 2 ** 32 for d in "cs"})
 
 
+def _quic_one(job):
+    """QUIC connections between random endpoints (MACs, addresses, IP version), some with a NAT rebinding in mid-connection: every exported datagram
+    carries the endpoints of the connection as first seen, the direction and stream data of its input datagram and that datagram's capture time"""
+    from harness.quicrun import run_quic
+    from harness.tlsrun import flow_of
+    from observe.pcapng import Observation
+    b, seed, params, fd = job
+    try:
+        fl = flow_of(dict(flow=fd), 0)
+        c, payload, fl, cap, res = run_quic(b, seed, params, flow=fl)
+    except Exception:
+        import traceback
+        return dict(machinery=traceback.format_exc()[-1500:])
+    bad = []
+    if res.crashed or res.out is None:
+        return dict(bad=["run aborted: " + (res.exc or "no output").strip().splitlines()[-1]], b=b, seed=seed, params=params, flow=fd)
+    o = Observation(res.out)
+    ends = {(fl.client.ip, fl.client.port), (fl.server.ip, fl.server.port)}
+    for i in o.packets:
+        if i["l4"] != "udp" or (i["src"], i["sport"]) not in ends or (i["dst"], i["dport"]) not in ends or i["ipv"] != fl.ipv:
+            bad.append(f"exported packet {i['n']} carries foreign addresses, ports, transport or IP version")
+            break
+    got = o.udp_dgrams(fl.client.ip, fl.client.port, fl.server.ip, fl.server.port)
+    truth = [(g.d, g.stream, cap.pkts[k][0]) for k, g in enumerate(c.dgrams) if g.stream]
+    if [(d, pl) for d, _t, pl, _s, _m in got] != [(d, pl) for d, pl, _t in truth]:
+        bad.append("stream data attributed to the wrong direction, altered or missing between the connection's own endpoints")
+    else:
+        for (d, ts, pl, sm, dm), (_d, _p, tin) in zip(got, truth):
+            snd, rcv = (fl.client, fl.server) if d == "c" else (fl.server, fl.client)
+            if (sm, dm) != (snd.mac, rcv.mac):
+                bad.append("MAC addresses of an exported datagram are not those of the connection's endpoints")
+                break
+            if int(ts * 10 ** 6) != tin:
+                bad.append("an exported datagram does not carry the capture time of its input datagram")
+                break
+    bad += o.problems[:2]
+    return dict(bad=bad, b=b, seed=seed, params=params, flow=fd)
+
+
 def run(chk):
     quick = chk.tier == "quick"
     rng = random.Random(chk.seed)
@@ -125,6 +164,20 @@ def run(chk):
         elif i % 3 == 1:
             sc["container"] = rng.choice(TWO_IF)
         jobs.append(sc)
+    # QUIC ("all connections as in C01 / C02")
+    from checks import c02
+    qb = c02.gen(chk, dict(MaxApp="3", ZeroRtts="{FALSE}"), 10 if quick else 150, chk.seed + 11)
+    rng.shuffle(qb)
+    qjobs = [(b, rng.randrange(1 << 30), dict(c_cid_len=rng.choice([0, 4, 8]) or 4, s_cid_len=rng.choice([4, 8, 20]), pnlen={"c": rng.choice([1, 2]), "s": rng.choice([2, 4])},
+                                              migrate_at=rng.choice([None, 5, 6, 7]), ts_step=rng.choice([None, 1, 7, 999_983])),
+              dict(rnd_flow(rng, rng.choice([4, 6])), sport=443)) for b in qb[: 60 if quick else 1200]]
+    for res in pool_map(_quic_one, qjobs):
+        if "machinery" in res:
+            raise Exception("replay failed in the harness: " + res["machinery"])
+        chk.evaluations += 1
+        chk.distinct.add(json.dumps(["quic", res["seed"], res["flow"]]))
+        for b_ in res["bad"]:
+            chk.violation("QUIC: " + b_, dict(behaviour=res["b"], seed=res["seed"], params=res["params"], flow=res["flow"], findings=res["bad"]))
     results = pool_map(_one, jobs)
     traces, rtr = [], []
     for res in results:
